@@ -92,6 +92,27 @@ func c12Int(c *core.Ctx, value int, size int) {
 			c.Violate("data.NewIntegerFromInt", "earlier-result-changed-by-later-call", sh, in, fmt.Sprintf("value %d size %d: the encoding handed out earlier now reads %x", value, size, held1))
 		}
 	}
+	// the caller OWNS what it was handed: it overwrites the bytes and appends to them; encoding the
+	// same value again gives the right bytes all the same (results must not be views of storage the
+	// encoder serves later calls from)
+	if e2 == nil {
+		for _, held := range [][]byte{i1.Bytes(), b2} {
+			for j := range held {
+				held[j] ^= 0xAA
+			}
+			_ = append(held, 0xAA, 0xAA, 0xAA, 0xAA)
+		}
+		want := beBytes(uint64(value), size)
+		if again, err := data.EncodeIntN(value, size); err != nil || !bytes.Equal(again, want) {
+			c.Violate("data.EncodeIntN", "encoding-differs-after-an-earlier-result-was-overwritten", sh, in, fmt.Sprintf("value %d size %d now encodes as %x (%v)", value, size, again, err))
+		}
+		again, err := data.NewIntegerFromInt(value, size)
+		if err != nil || again == nil || !bytes.Equal(again.Bytes(), want) {
+			c.Violate("data.NewIntegerFromInt", "encoding-differs-after-an-earlier-result-was-overwritten", sh, in, fmt.Sprintf("value %d size %d now encodes as %v (%v)", value, size, again, err))
+			return
+		}
+		i1 = again
+	}
 	enc := i1.Bytes()
 	it := data.Integer(enc)
 	if it.Int() != value {
@@ -265,6 +286,42 @@ func runC12(c *core.Ctx) {
 			if d, err := data.NewDateFromUnix(math.MaxInt64/1000 + 1 + int64(i)); err == nil {
 				c.Violate("data.NewDateFromUnix", "out-of-domain-accepted", nil, nil, fmt.Sprintf("seconds beyond the millisecond range accepted as %v", d))
 			}
+		}
+	})
+
+	// second counts anywhere above the millisecond range (their product with 1000 does not fit 63
+	// bits: whatever it wraps to, the value is rejected), and the largest that fit
+	c.Job("dates-seconds-out-of-range", c.N(4000, 80000), func(i int, r *core.Rand) {
+		limit := int64(math.MaxInt64 / 1000)
+		var s int64
+		switch i % 4 {
+		case 0:
+			s = limit + 1 + int64(r.Uint64()%uint64(math.MaxInt64-limit))
+		case 1:
+			s = limit + 1 + int64(r.Uint64()>>uint(1+r.Pick(63)))
+			if s < 0 {
+				s = math.MaxInt64
+			}
+		case 2:
+			// decimal round numbers: 1e16 .. 9e18
+			s = int64(1+r.Pick(9)) * int64(math.Pow10(16+r.Pick(3)))
+			if s <= limit {
+				s = limit + 1
+			}
+		default:
+			s = limit - int64(r.Pick(1000)) // in range
+		}
+		c.Eval(1)
+		in := beBytes(uint64(s), 8)
+		c.Nontrivial([]byte("date-seconds"), in)
+		d, err := data.NewDateFromUnix(s)
+		c.OpResult("data.NewDateFromUnix", err == nil)
+		if s > limit {
+			if err == nil {
+				c.Violate("data.NewDateFromUnix", "out-of-domain-accepted", gen.Shape{"seconds_beyond_millisecond_range": true}, in, fmt.Sprintf("%d s does not fit a millisecond date; accepted as %v", s, d))
+			}
+		} else if err != nil || d == nil || !bytes.Equal(d.Bytes(), beBytes(uint64(s)*1000, 8)) {
+			c.Violate("data.NewDateFromUnix", "stored-value-differs", gen.Shape{"seconds_beyond_millisecond_range": false}, in, fmt.Sprintf("%d s stored as %v (%v)", s, d, err))
 		}
 	})
 
